@@ -124,6 +124,32 @@ def discharge(name, hyps, goal, tier="quick", facts=()):
                 elif r2 in ("sat", "unsat") and res["verdict"] in ("sat", "unsat") and r2 != res["verdict"]:
                     res["verdict"] = "disagree"
         res["smt2_sha"] = hashlib.sha256((text or "").encode()).hexdigest()[:16]
+    if res["verdict"] == "unknown" and z3.is_and(goal):
+        # a conjunction the solvers cannot decide as a whole: every conjunct (flattened) is its own query under the same premises; the
+        # obligation is discharged iff every conjunct is (a conjunct that is refuted refutes the obligation)
+        parts = []
+        def flat(g):
+            if z3.is_and(g):
+                for c in g.children():
+                    flat(c)
+            else:
+                parts.append(g)
+        flat(goal)
+        verdicts = []
+        extra_s = 0.0
+        for gpart in parts:
+            r3, secs3, s3 = _solve_api(hyps, gpart, Z3_TIMEOUT_MS if tier == "quick" else 3 * Z3_TIMEOUT_MS, facts)
+            extra_s += secs3
+            verdicts.append(r3)
+            if r3 == "sat":
+                res["verdict"], res["backend"], s = "sat", "z3-5.1-api (conjunct %d of %d)" % (len(verdicts), len(parts)), s3
+                break
+            if r3 != "unsat":
+                break
+        res["seconds"] = round(res["seconds"] + extra_s, 4)
+        res["backends"]["z3-5.1-api/per-conjunct"] = [",".join(verdicts), round(extra_s, 4)]
+        if len(verdicts) == len(parts) and all(v == "unsat" for v in verdicts):
+            res["verdict"], res["backend"] = "unsat", "z3-5.1-api (%d conjuncts, each its own query)" % len(parts)
     res["_solver"] = s
     return res
 
